@@ -223,6 +223,7 @@ func Execute(t *testing.T, h Harness, plan *Plan) *Result {
 			}
 			sim := simrt.New(tape)
 			sim.MaxSteps = plan.C("max_steps", 400000)
+			sim.MapOrder = plan.C("maporder", 0) == 1
 			ctx := &RunCtx{Sim: sim, Plan: plan, Dir: dir, Res: res}
 			mainDone := false
 			sim.SpawnIn(0, "main", func() {
